@@ -884,6 +884,7 @@ func (f *frame) indexAddr(x *ssa.IndexAddr) error {
 
 func (f *frame) slice(x *ssa.Slice) error {
 	var s *Term
+	var org *arrOrigin
 	bv, err := f.val(x.X)
 	if err != nil {
 		return err
@@ -899,6 +900,9 @@ func (f *frame) slice(x *ssa.Slice) error {
 			return err
 		}
 		f.e.warn("%s: slice of array treated as a value copy (aliasing not modelled)", f.fn.Name())
+		if at, ok := x.X.Type().Underlying().(*types.Pointer).Elem().Underlying().(*types.Array); ok {
+			org = &arrOrigin{p: p, typ: x.X.Type().Underlying().(*types.Pointer).Elem(), arr: s, n: at.Len()}
+		}
 	} else {
 		if bv.T == nil {
 			return unsupported("slice of non-term")
@@ -934,6 +938,10 @@ func (f *frame) slice(x *ssa.Slice) error {
 		f.setVal(x, SeqSub(s, lo, nil))
 	} else {
 		f.setVal(x, SeqSub(s, lo, hi))
+	}
+	if org != nil {
+		org.lo = lo
+		f.vals[x].Arr = org
 	}
 	return nil
 }
